@@ -513,6 +513,16 @@ func (t *Table) InsertColumn(position int, data []string, width int) error {
 		return fmt.Errorf("数据行数(%d)超过表格行数(%d)", len(data), len(t.Rows))
 	}
 
+	// 所有行和网格都必须能容纳该位置（存在合并单元格或不规则行时返回错误而不是越界）
+	if t.Grid == nil || position > len(t.Grid.Cols) {
+		return fmt.Errorf("插入位置无效：%d，表格网格列数不足", position)
+	}
+	for i := range t.Rows {
+		if position > len(t.Rows[i].Cells) {
+			return fmt.Errorf("插入位置无效：%d，第%d行只有%d个单元格", position, i, len(t.Rows[i].Cells))
+		}
+	}
+
 	// 更新表格网格
 	newGridCol := TableGridCol{
 		W: fmt.Sprintf("%d", width),
@@ -591,6 +601,16 @@ func (t *Table) DeleteColumn(colIndex int) error {
 		return fmt.Errorf("表格至少需要保留一列")
 	}
 
+	// 所有行和网格都必须包含该列（存在合并单元格或不规则行时返回错误而不是越界）
+	if t.Grid == nil || colIndex >= len(t.Grid.Cols) {
+		return fmt.Errorf("列索引无效：%d，表格网格列数不足", colIndex)
+	}
+	for i := range t.Rows {
+		if colIndex >= len(t.Rows[i].Cells) {
+			return fmt.Errorf("列索引无效：%d，第%d行只有%d个单元格", colIndex, i, len(t.Rows[i].Cells))
+		}
+	}
+
 	// 删除网格列
 	t.Grid.Cols = append(t.Grid.Cols[:colIndex], t.Grid.Cols[colIndex+1:]...)
 
@@ -617,6 +637,16 @@ func (t *Table) DeleteColumns(startIndex, endIndex int) error {
 	deleteCount := endIndex - startIndex + 1
 	if colCount-deleteCount < 1 {
 		return fmt.Errorf("删除后表格至少需要保留一列")
+	}
+
+	// 所有行和网格都必须包含该列范围（存在合并单元格或不规则行时返回错误而不是越界）
+	if t.Grid == nil || endIndex >= len(t.Grid.Cols) {
+		return fmt.Errorf("列索引范围无效：[%d, %d]，表格网格列数不足", startIndex, endIndex)
+	}
+	for i := range t.Rows {
+		if endIndex >= len(t.Rows[i].Cells) {
+			return fmt.Errorf("列索引范围无效：[%d, %d]，第%d行只有%d个单元格", startIndex, endIndex, i, len(t.Rows[i].Cells))
+		}
 	}
 
 	// 删除网格列范围
